@@ -133,6 +133,8 @@ type Stats struct {
 	PoolDups        int64 // same pointer present twice: duplicate preferred
 	PoolPuts        int64
 	PoolDrops       int64
+	CleanupsAdded   int64 // runtime.AddCleanup registrations inside the world
+	CleanupsRun     int64 // ... whose object was unreachable at a simulated GC point
 	Scribbles       int64
 	MutexLocks      int64
 	MutexBlocks     int64
@@ -173,6 +175,9 @@ type World struct {
 	vLimit     int64 // world virtual-time limit (0 = none)
 	pools      []*Pool
 	npools     int
+	cleanups   []cleanupRec // runtime.AddCleanup registrations made inside the world (cleanup.go)
+	ncleanups  int
+	cleanupSeq uint64
 	epoch      uint64
 	trace      []int64
 	ntrace     int
@@ -1784,6 +1789,9 @@ func PoolGC() {
 		}
 		w.St.PoolDrops += int64(p.n)
 		p.n = 0
+	}
+	if w.ncleanups > 0 {
+		runCleanups(w)
 	}
 }
 
